@@ -49,8 +49,13 @@ TOK_NOSPAN = r"""(?P<SPACE>\s+)|(?P<COMMENT_EOL>//.*)|(?P<WORD>[a-z_]+)|(?P<NUM>
 TOK_PASCAL = r"""(?P<SPACE>\s+)|(?P<COMMENT_EOL>//.*)|(?P<COMMENT_ML>\(\*)|(?P<WORD>[a-z_]+)|(?P<NUM>[0-9]+)
           |(?P<SEMI>;)|(?P<STRING>"[^"]*")|(?P<LP>\()|(?P<RP>\))"""
 SPAN_PASCAL = {'COMMENT_ML': r"(?P<END_COMMENT>(\*[^)]|[^*])*)\*\)"}
+# two kinds of multi-line comments in one tokenizer, each with its own closer
+TOK_TWO = TOK.replace("(?P<LP>", "(?P<COMMENT_P>\\(\\*)|(?P<LP>")
+SPAN_TWO = {'COMMENT_ML': None, 'COMMENT_P': r"(?P<END_COMMENT_P>(\*[^)]|[^*])*)\*\)"}
 SPAN = {'COMMENT_ML': r"(?P<END_COMMENT>(\*[^/]|[^*])*)\*/"}
 SYN = {'COMMENT_EOL': 'COMMENT', 'COMMENT_ML': 'COMMENT', 'SEMI': ';', 'LP': '(', 'RP': ')'}
+SPAN_TWO['COMMENT_ML'] = SPAN['COMMENT_ML']
+SYN_TWO = dict(SYN, COMMENT_P='COMMENT')
 SYN_NOSPAN = {'COMMENT_EOL': 'COMMENT', 'SEMI': ';', 'LP': '(', 'RP': ')'}
 KEYW = {('WORD', 'if'): 'IF', ('WORD', 'do'): 'DO'}
 
@@ -91,6 +96,8 @@ CONFIGS = [
     # the same opener group name as in the other configurations, another comment syntax
     dict(name="pascal-comments", tok=TOK_PASCAL, span=SPAN_PASCAL, syn=SYN, skip=None, prods=STMT_PRODS, stmt=True,
          kept=set(), ml=("(*", "*)")),
+    dict(name="two-comment-syntaxes", tok=TOK_TWO, span=SPAN_TWO, syn=SYN_TWO, skip=None, prods=STMT_PRODS, stmt=True,
+         kept=set(), mls=[("/*", "*/"), ("(*", "*)")]),
     dict(name="only-blanks-are-space", tok=TOK_NARROW, span=SPAN, syn=SYN, skip=None, prods=STMT_PRODS,
          stmt=True, kept=set(), narrow=True),
 ]
@@ -181,7 +188,7 @@ def gen_pieces(rng, cfg):
             elif r < 0.65:
                 out.append(("nl", None, "\n"))
             elif r < 0.85 and cfg["span"]:
-                opener, closer = cfg.get("ml", ("/*", "*/"))
+                opener, closer = rng.choice(cfg["mls"]) if cfg.get("mls") else cfg.get("ml", ("/*", "*/"))
                 out.append(("tok", "COMMENT", opener + rng.choice(ML_BODIES) + closer))
             elif r < 0.95:
                 out.append(("tok", "COMMENT", "//" + rng.choice(EOL_BODIES)))
@@ -492,6 +499,20 @@ def run_shard(ctx):
             continue
         cfg_id = rng.randrange(len(CONFIGS))
         pieces = gen_pieces(rng, CONFIGS[cfg_id])
+        if i % 331 == 17 and pieces:
+            # one line is longer than 65535 characters: columns beyond any 16-bit field
+            k = rng.randrange(len(pieces))
+            while k > 0 and pieces[k - 1][2].startswith("//"):
+                k -= 1
+            pieces.insert(k, ("blank", "SPACE", " " * rng.choice([65534, 65536, 70000])))
+            merged = []
+            for p in pieces:
+                if merged and p[0] == "blank" and merged[-1][0] == "blank":
+                    merged[-1] = ("blank", "SPACE", merged[-1][2] + p[2])
+                else:
+                    merged.append(p)
+            pieces = merged
+            ctx.count("texts_with_a_line_longer_than_65535")
         if i % 6 == 5:
             # a character no pattern matches, as a piece of its own
             pos = rng.randint(0, len(pieces)) if rng.random() < 0.7 else 0
